@@ -389,9 +389,27 @@ def check(doc, case, acc=None):
     return probs
 
 
+def failing_calls_first():
+    """an import that fails (ill-formed document) and an export that fails part-way (a tail that is not text) come before
+    the cases of every work item: what they leave behind must not reach the calls that follow"""
+    for bad in ("<a xmlns:p='urn:u1'><p:b><c></p:b></a>", "<a><b></a>", ""):
+        try:
+            metapype_io.from_xml(bad)
+        except Exception:  # noqa
+            pass
+    try:
+        t = metapype_io.from_xml("<r xmlns:p='urn:u1' xmlns:q='urn:u2'><p:a q:k='v'><b>x</b>t<c/>u</p:a></r>")
+        t.children[0].children[1].tail = 5
+        metapype_io.to_xml(t)
+    except Exception:  # noqa
+        pass
+    core.reset_store()
+
+
 def work(item):
     shape_doc, d, lo, hi = item
     acc = core.Acc()
+    failing_calls_first()
     feats = []
     for path, _ in walk(shape_doc):
         feats += features(shape_doc, path)
